@@ -352,6 +352,14 @@ impl<'a, R, U: Updater> Updater for Importer<'a, R, U> {
         self.updater.update(old, obj)
     }
 }
+impl<'a, R, U: Updater> Importer<'a, R, U> {
+    /// A copy failed after its number was reserved: forget the mapping and give the reserved number the null
+    /// object, so that the failed import does not leave a promise behind that makes the target impossible to save.
+    fn abandon(&mut self, old: PlainRef, new: PlainRef) {
+        self.map.remove(&old);
+        let _ = self.updater.update(new, Primitive::Null);
+    }
+}
 impl<'a, R: Resolve, U: Updater> Cloner for Importer<'a, R, U> {
     fn clone_ref<T: DeepClone + Object + DataSize + ObjectWrite>(&mut self, old: Ref<T>) -> Result<Ref<T>> {
         if let Some(&new_ref) = self.map.get(&old.get_inner()) {
@@ -361,7 +369,13 @@ impl<'a, R: Resolve, U: Updater> Cloner for Importer<'a, R, U> {
         // reserve the new number first: a reference back to `old` met while cloning resolves to it
         let promise = self.updater.promise::<T>();
         self.map.insert(old.get_inner(), promise.get_inner());
-        let clone = obj.deep_clone(self)?;
+        let clone = match obj.deep_clone(self) {
+            Ok(clone) => clone,
+            Err(e) => {
+                self.abandon(old.get_inner(), promise.get_inner());
+                return Err(e);
+            }
+        };
 
         let r = self.updater.fulfill(promise, clone)?;
 
@@ -376,7 +390,13 @@ impl<'a, R: Resolve, U: Updater> Cloner for Importer<'a, R, U> {
         let promise = self.updater.promise::<Primitive>();
         let new = promise.get_inner();
         self.map.insert(old, new);
-        let clone = obj.deep_clone(self)?;
+        let clone = match obj.deep_clone(self) {
+            Ok(clone) => clone,
+            Err(e) => {
+                self.abandon(old, new);
+                return Err(e);
+            }
+        };
         self.updater.fulfill(promise, clone)?;
 
         Ok(new)
